@@ -323,3 +323,34 @@ def replace_field(payload, item, newraw):
     mask = ((1 << item.width) - 1) << shift
     v = (v & ~mask) | (newraw << shift)
     return v.to_bytes(len(payload), "big")
+
+
+def probe_source(ident, ones):
+    """deterministic source: identity fields right, every counter / flag / mask 0 (ones=False) or small and non-zero (ones=True)"""
+    mid, sub = ident_numbers(ident)
+
+    def s(key, width, w, idx):
+        if key == "DF002" and w.nbits == 0:
+            return mid
+        if key == "IDF002":
+            return sub if sub is not None else 0
+        if key == "DF394":
+            return (0b101 << 61) if ones else 0
+        if key == "DF395":
+            return (0b11 << 30) if ones else 0
+        if key == "DF396":
+            return (1 << width) - 1 if ones else 0
+        if width == 0:
+            return 0
+        if key in ("IDF037", "IDF038"):
+            return 0
+        return 1 if ones else 0
+
+    return s
+
+
+def check_all_definitions():
+    """walk every definition with all counters 0 and with all counters / flags 1; raises BadDefinition"""
+    for ident in identities():
+        for ones in (False, True):
+            Walk(ident, probe_source(ident, ones)).run()
